@@ -12,18 +12,20 @@ SMALL = ["gammadet", "gdet", "betamag", "gtt", "nup4", "gdown4"]
 def specs_for(tier, seed, graph):
     s = [
         # safety layer: ANY set of unfrozen entries older than one calculation may go at any clean-up point
-        dict(pres="components", nreq=3, ce=2, policy="any", requests=SMALL, emit=False, allow_freeze=True, coverage=True,
-             label="safety layer (any eviction), metric sub-graph, 3 requests incl. freeze_data between, ce=2"),
+        dict(pres="components", nreq=3, ce=2, policy="any", requests=SMALL, emit=False, allow_freeze=True, allow_load=True, coverage=True,
+             label="safety layer (any eviction), metric sub-graph, 3 requests incl. freeze_data / load_data between, ce=2"),
         dict(pres="components", nreq=2, ce=1, policy="any", requests=SMALL, emit=False,
              label="safety layer (any eviction), metric sub-graph, 2 requests, ce=1"),
         # the code's policy on the real graph, most aggressive settings
         dict(pres="tensors", nreq=2, ce=1, mt=True, label="real graph, tensors, 2 requests exhaustive, ce=1 and memory threshold tiny"),
         dict(pres="components", nreq=1, ce=1, label="real graph, components, 1 request, ce=1"),
         dict(pres="minimal", nreq=1, ce=2, mt=True, label="real graph, minimal, 1 request, ce=2 mem tiny"),
-        dict(pres="tensors", nreq=6, ce=1, simulate=6, seed=seed + 1, emit=False, allow_freeze=True, label="simulate 6 requests ce=1 with freeze_data between"),
+        dict(pres="tensors", nreq=6, ce=1, simulate=6, seed=seed + 1, emit=False, allow_freeze=True, allow_load=True, label="simulate 6 requests ce=1 with freeze_data / load_data between"),
         dict(pres="components", nreq=6, ce=3, mt=True, simulate=6, seed=seed + 2, emit=False, label="simulate 6 requests ce=3 mem tiny"),
-        dict(pres="tensors", nreq=6, ce=2, freeze=False, allow_freeze=True, simulate=4, seed=seed + 3, emit=False,
-             label="simulate: inputs NOT frozen first, freeze_data later (only what is frozen is asserted)"),
+        dict(pres="tensors", nreq=6, ce=2, freeze=False, allow_freeze=True, allow_load=True, simulate=4, seed=seed + 3, emit=False,
+             label="simulate: inputs NOT frozen first, freeze_data / load_data later (only what is frozen is asserted)"),
+        dict(pres="components", nreq=5, ce=2, allow_load=True, simulate=6, seed=seed + 6, emit=False,
+             label="simulate 5 requests ce=2 with a load_data call that carries only part of the frozen inputs"),
     ]
     if tier == "thorough":
         s += [
@@ -31,8 +33,8 @@ def specs_for(tier, seed, graph):
                  label="safety layer, 4 requests incl. freeze, ce=2"),
             dict(pres="components", nreq=2, ce=2, mt=True, label="real graph, components, 2 requests exhaustive, ce=2 mem tiny"),
             dict(pres="minimal", nreq=2, ce=1, label="real graph, minimal, 2 requests exhaustive, ce=1"),
-            dict(pres="tensors", nreq=15, ce=1, mt=True, simulate=40, seed=seed + 4, emit=False, allow_freeze=True, label="simulate 15 requests mem tiny"),
-            dict(pres="components", nreq=25, ce=5, simulate=40, seed=seed + 5, emit=False, allow_freeze=True, label="simulate 25 requests ce=5"),
+            dict(pres="tensors", nreq=15, ce=1, mt=True, simulate=40, seed=seed + 4, emit=False, allow_freeze=True, allow_load=True, label="simulate 15 requests mem tiny"),
+            dict(pres="components", nreq=25, ce=5, simulate=40, seed=seed + 5, emit=False, allow_freeze=True, allow_load=True, label="simulate 25 requests ce=5"),
         ]
     return s
 
@@ -99,7 +101,7 @@ def run(tier, seed):
     specs = CC.run_models(run, graph, [dict(sp, properties=M.PROPERTIES + ["AbsSafety"]) for sp in specs_for(tier, seed, graph)], plan, opts)
     run.info["tlc_models"] = [{k: v for k, v in sp.items() if k != "requests"} for sp in specs]
     # vacuity: the actions the invariants talk about must have been taken in the exhaustive safety-layer run
-    never = [a for a in ("Request", "Freeze", "StepRead", "StepTest", "Return") if run.coverage_actions.get(a, (0, 0))[1] == 0]
+    never = [a for a in ("Request", "Freeze", "Load", "StepRead", "StepTest", "Return") if run.coverage_actions.get(a, (0, 0))[1] == 0]
     if never:
         raise RuntimeError(f"vacuous model run: actions never taken: {never}")
     liveness(run, graph)
@@ -114,8 +116,8 @@ def run(tier, seed):
     CC.suite_traces(run, "C03")
     CC.binding_demo(run, graph, seed)
     run.rule = ("behaviours of AurelCache (safety layer with arbitrary eviction on a dependency-closed sub-graph; the code's policy on the graph "
-                "extracted from the working tree with clear_cache_every_nbr_calc in {1,2,3} and a memory threshold below the inputs; freeze_data "
-                "between requests; random importance overrides) replayed on the real AurelCore; after every request: frozen entries present and "
+                "extracted from the working tree with clear_cache_every_nbr_calc in {1,2,3} and a memory threshold below the inputs; freeze_data and "
+                "partial load_data calls between requests; random importance overrides) replayed on the real AurelCore; after every request: frozen entries present and "
                 "byte-identical, last_accessed subset of data, no exception from cleanup_cache, wall-clock guard; every nested step checked by TLC "
                 "trace validation against the named invariants. Non-trivial = >= 2 requests with >= 1 eviction or guard hit")
     run.assumptions = ["memory threshold 'tiny' = 1e-9 GB (below the size of the frozen inputs): the while loop of cleanup_cache runs to its end at every calculation",
